@@ -657,7 +657,13 @@ def openFilters : List Bytes := [ArrF.bn "sort", ArrF.bn "uniq", ArrF.bn "sort_n
 
 theorem strGlue_scalar : StrGlue.names.all (fun n => scalarSigB n.toUTF8.toList) = true := by decide +kernel
 
-theorem goodEntry_std (t : Bool) : ∀ e ∈ stdFilterImpls, e.1 ∉ openFilters → goodEntry t e := by
+/-- every entry of the table is good, except the excluded names; the three open entries are good
+    when they are not excluded and shown good -/
+theorem goodEntry_table (t : Bool) (excl : List Bytes)
+    (hs : ArrF.bn "sort" ∉ excl → goodEntry t (ArrF.bn "sort", ArrF.eager ArrF.sort))
+    (hu : ArrF.bn "uniq" ∉ excl → goodEntry t (ArrF.bn "uniq", ArrF.eager ArrF.uniq))
+    (hnat : ArrF.bn "sort_natural" ∉ excl → goodEntry t (ArrF.bn "sort_natural", ArrF.eager ArrF.sortNatural)) :
+    ∀ e ∈ stdFilterImpls, e.1 ∉ excl → goodEntry t e := by
   intro e he hn
   simp only [stdFilterImpls, List.mem_append] at he
   rcases he with (he | he) | he
@@ -684,11 +690,15 @@ theorem goodEntry_std (t : Bool) : ∀ e ∈ stdFilterImpls, e.1 ∉ openFilters
     · exact goodEntry_of_sig t ⟨ArrF.bn "join", [.val .anys, .fn .str], false⟩ (by decide +kernel) (ArrF.join_respects t)
     · exact goodEntry_of_sig t ⟨ArrF.bn "map", [.val .anys, .val .str], false⟩ (by decide +kernel) (ArrF.map_respects t)
     · exact goodEntry_of_sig t ⟨ArrF.bn "reverse", [.val .anys], false⟩ (by decide +kernel) (ArrF.reverse_respects t)
-    · exact absurd (by simp [openFilters]) hn
+    · exact hs hn
     · exact goodEntry_of_sig t ⟨ArrF.bn "first", [.val .anys], false⟩ (by decide +kernel) (ArrF.first_respects t)
     · exact goodEntry_of_sig t ⟨ArrF.bn "last", [.val .anys], false⟩ (by decide +kernel) (ArrF.last_respects t)
-    · exact absurd (by simp [openFilters]) hn
-    · exact absurd (by simp [openFilters]) hn
+    · exact hu hn
+    · exact hnat hn
+
+theorem goodEntry_std (t : Bool) : ∀ e ∈ stdFilterImpls, e.1 ∉ openFilters → goodEntry t e :=
+  goodEntry_table t openFilters (fun h => absurd (by simp [openFilters]) h) (fun h => absurd (by simp [openFilters]) h)
+    (fun h => absurd (by simp [openFilters]) h)
 
 theorem lookupImpl_mem {tbl : List (Bytes × FilterImpl)} {name : Bytes} {f : FilterImpl}
     (h : lookupImpl tbl name = some f) : (name, f) ∈ tbl := by
@@ -743,6 +753,9 @@ theorem stdPrimsOnly_respects (allowed : Bytes → Bool)
 
 /-- the engine without `sort`, `uniq` and `sort_natural` -/
 def coreFilters (n : Bytes) : Bool := !openFilters.contains n
+
+/-- the engine without `uniq` -/
+def withoutUniq (n : Bytes) : Bool := !(n == ArrF.bn "uniq")
 
 /-- the length of an array result (for the examples of `Proofs/C18.lean`) -/
 def lenOfRes : Res Cause GoVal → Nat
